@@ -168,25 +168,26 @@ def task_trbe(task):
         res['constraints'] = len(d['Constraints'])
         if L.nin != n + 2:
             raise Inconclusive('harness inputs %d != %d' % (L.nin, n + 2))
-        if len(L.nbits) != 1:
-            raise Inconclusive('expected one NBits decomposition, found %d' % len(L.nbits))
-        hv, hb = L.nbits[0]
+        if not L.nbits:
+            raise Inconclusive('no NBits decomposition found')
         used = set()
         V = L.zint(L.val[1], used)
         outs = [L.zint(L.val[2 + i], used) for i in range(n)]
-        digs = [L.zint(b, used) for b in (list(hb) + [{}] * n)[:n]]
+        # the specification does not mention the hints: the emitted string, read back in little-endian bit order, is the binary
+        # representation of the (canonical) value
+        dig_of_out = lambda outs_: [outs_[(n // 8 - 1 - j // 8) * 8 + j % 8] for j in range(n)]
+        digs = dig_of_out(outs)
+        hint_digs = [[L.zint(b, used) for b in hb_] for _, hb_ in L.nbits]
         asserts = L.all_assertions(used)
         conds = [c(used) for _, c in L.sum_conditions]
-        spec = z3.And(*([z3.And(x >= 0, x <= 1) for x in digs] +
-                        [z3.Sum([(1 << i) * digs[i] for i in range(n)]) == V] +
-                        [outs[k * 8 + t] == digs[(n // 8 - 1 - k) * 8 + t] for k in range(n // 8) for t in range(8)]))
+        spec = z3.And(*([z3.And(x >= 0, x <= 1) for x in digs] + [z3.Sum([(1 << i) * digs[i] for i in range(n)]) == V]))
         base = L.closure(used)
         r, secs, s = solve(base + asserts + conds + [z3.Not(spec)], task.get('timeout', 120))
-        o = {'name': name + ' soundness (digits free): constraints & not Spec', 'verdict': r, 'expect': 'unsat', 'secs': secs}
+        o = {'name': name + ' soundness (all %d hint decompositions free): constraints & not Spec' % len(L.nbits), 'verdict': r, 'expect': 'unsat', 'secs': secs}
         if r == 'sat':
             m = s.model()
             iv = lambda t: int(str(m.eval(t, model_completion=True)))
-            o['cex'] = {'V': iv(V), 'out': [iv(x) for x in outs], 'digits': [iv(x) for x in digs], 'hint': 0}
+            o['cex'] = {'V': iv(V), 'out': [iv(x) for x in outs], 'hints': [[iv(x) for x in hd] for hd in hint_digs]}
         res['obls'].append(o)
         r, secs, s = solve(base + asserts + conds, 60)
         res['obls'].append({'name': name + ' soundness twin', 'verdict': r, 'expect': 'sat', 'secs': secs})
@@ -195,11 +196,15 @@ def task_trbe(task):
         used = set()
         V = L.zint(L.val[1], used)
         outs = [L.zint(L.val[2 + i], used) for i in range(n)]
-        digs = [L.zint(b, used) for b in (list(hb) + [{}] * n)[:n]]
+        # under the honest-hint contract the outputs of any NBits decomposition of v are the bits of v: use one as the name of "bit i of v"
+        # (stating the digits by a second weighted sum would ask the solver to re-prove uniqueness of binary representation at 384 bits)
+        cand = [hb_ for hv_, hb_ in L.nbits if L.canon(hv_) == L.canon(L.val[1]) and len(hb_) >= n] or [L.nbits[0][1]]
+        vbits = [L.zint(b, used) for b in (list(cand[0]) + [{}] * n)[:n]]
+        digs = dig_of_out(outs)
         asserts = L.all_assertions(used)
         conds = [c(used) for _, c in L.sum_conditions]
         hh = merkle.honest_hints(L, used)
-        spec = z3.And(*([V < (1 << n)] + [outs[k * 8 + t] == digs[(n // 8 - 1 - k) * 8 + t] for k in range(n // 8) for t in range(8)]))
+        spec = z3.And(*([V < (1 << n)] + [digs[i] == vbits[i] for i in range(n)]))
         base = L.closure(used)
         r, secs, s = solve(base + hh + [spec, z3.Not(z3.And(*(asserts + conds)))], task.get('timeout', 120))
         o = {'name': name + ' completeness (honest hint): v < min(p,2^n) with its big-endian digits is accepted', 'verdict': r, 'expect': 'unsat', 'secs': secs}
@@ -212,8 +217,8 @@ def task_trbe(task):
         res['obls'].append({'name': name + ' completeness twin', 'verdict': r, 'expect': 'sat', 'secs': secs})
         # the summarised comparator really is applied to the n digits, little-endian
         rm = [x for x in L.sumcalls if x[0]['gadget'] == 'prover.ReducedModRCheck']
-        okwire = len(rm) == 1 and [L.canon(x) for x in rm[0][1]] == [L.canon(b) for b in hb]
-        res['obls'].append({'name': name + ': ReducedModRCheck is called once on exactly the decomposition digits (wire identity)', 'verdict': 'unsat' if okwire else 'sat', 'expect': 'unsat', 'secs': 0.0})
+        okwire = len(rm) == 1 and any([L.canon(x) for x in rm[0][1]] == [L.canon(b) for b in hb_] for _, hb_ in L.nbits)
+        res['obls'].append({'name': name + ': ReducedModRCheck is called once, on the digits of a decomposition (wire identity; that it is the emitted one is part of soundness)', 'verdict': 'unsat' if okwire else 'sat', 'expect': 'unsat', 'secs': 0.0})
     except Inconclusive as e:
         res['error'] = 'inconclusive: %s' % e
     return res
